@@ -568,7 +568,8 @@ def eval_text(ck, name, cases, stats, full=lambda c: True):
            "Definition V := Eval vm_compute in spec_violations cases.\nPrint V.\n"
            "Definition W := Eval vm_compute in sem_violations cases.\nPrint W.\n"
            "Definition SC := Eval vm_compute in scope_counts cases.\nPrint SC.\n"
-           "Definition CC := Eval vm_compute in chain_count cases.\nPrint CC.\n")
+           "Definition CC := Eval vm_compute in chain_count cases.\nPrint CC.\n"
+           "Definition PC := Eval vm_compute in portion_count cases.\nPrint PC.\n")
     rc, out = ck.coq_eval(name, txt)
     if rc != 0:
         return None, None, None, out
@@ -586,6 +587,9 @@ def eval_text(ck, name, cases, stats, full=lambda c: True):
         cc = re.search(r"CC = (\d+)(?:%Z)?\s*: Z", flat)
         if cc:
             stats["scope_chain"] = stats.get("scope_chain", 0) + int(cc.group(1))
+        pc = re.search(r"PC = (\d+)(?:%Z)?\s*: Z", flat)
+        if pc:
+            stats["scope_portion"] = stats.get("scope_portion", 0) + int(pc.group(1))
     ids = [int(x) for x in re.findall(r"-?\d+", v.group(1))]
     return prs(m.group(1)), ids, prs(w.group(1)), out
 
@@ -867,5 +871,6 @@ def run(ck):
     # how much of the generated input space the statement-level theorems speak about (the oracle judges all of it)
     ck.extra["inside_theorem_hypotheses"] = {"traceql_correct_single": stats.get("scope_single", 0), "traceql_correct_agg": stats.get("scope_agg", 0),
                                              "traceql_correct_chain": stats.get("scope_chain", 0),
+                                             "traceql_correct_single/agg_portion": stats.get("scope_portion", 0),
                                              "of_cases": len(usable)}
     ck.add_samples([{"query": qtext(c), "mode": c["mode"], "sql_prefix": unhex(c["obs"][0]["sql"]).decode()[:300]} for c in usable if c.get("obs") and "sql" in c["obs"][0]][:3])
